@@ -1,4 +1,4 @@
-from runner import CbmcUnit, Entry
+from runner import CbmcUnit, Entry, PathUnit, PathEntry
 
 
 def units(tier):
@@ -29,4 +29,11 @@ def units(tier):
     ]
     return [CbmcUnit("stream", "harness/C15_stream.cpp", entries, defines=["CAPMAX=%d" % cap], heap_max=64, object_bits=10, mem_unwind=40,
                      assumptions=["allocation never fails", "capacity <= %d" % cap, "std::string payloads of length <= 2 (quick) / 3 (thorough) with every byte value, via the libstdc++ string model; vector<string> not covered"],
-                     stubs=["operator new/delete = malloc/free model", "std::runtime_error ctor/dtor: type tag only"])]
+                     stubs=["operator new/delete = malloc/free model", "std::runtime_error ctor/dtor: type tag only"]),
+            PathUnit("stream_path", "harness/C15_stream.cpp", [
+                PathEntry("vp_main_roundtrip_vecstr", desc="vector<string> of 0-3 strings, each of length 0-2 or 17, every byte value: byte count, round trip through BufferWriter -> BufferReader, stale target contents replaced, consumed exactly", wall=600),
+                PathEntry("vp_main_roundtrip_str15", desc="std::string of 15 arbitrary bytes (largest small-string) round trip", wall=600),
+                PathEntry("vp_main_roundtrip_str16", desc="std::string of 16 arbitrary bytes (first heap string) round trip", wall=600),
+                PathEntry("vp_main_roundtrip_str33", desc="std::string of 33 arbitrary bytes round trip", wall=600)],
+                defines=["CAPMAX=%d" % cap, "VP_PATH"],
+                assumptions=["path engine (vp/llpath.py): libstdc++ string/vector are the real header code; allocation never fails"])]
